@@ -19,6 +19,51 @@ let key_id (k : string) : n =
   | Some i -> n_of_int i
   | None -> let i = Hashtbl.length keytab + 1 in Hashtbl.add keytab k i; n_of_int i
 
+(* which filter each key denotes (same tables as harness/cmd/c12) *)
+let condtab : (n * fcond) list ref = ref []
+let cs = chars_of_string
+let url_params = [|
+  ("", "", "", ""); ("", "example.com", "", ""); ("", "*.example.com", "", ""); ("", "", "/a", "");
+  ("https", "", "", ""); ("", "", "", "zz=1"); ("", "example.com", "/b", "");
+  ("http", "www.example.com", "/a", ""); ("", "*.org", "", ""); ("", "*.*.example.com", "", "");
+  ("", "*", "", ""); ("https", "*.example.com", "/b", "") |]
+let method_params = [| "GET"; "POST"; "get"; ""; "PUT"; "Post" |]
+let fcond_of (ty : char) (tag : string) (param : int) : fcond =
+  match ty with
+  | 'h' -> FHeader (cs ((if param mod 2 = 1 then "x-cond-" else "X-Cond-") ^ tag), cs "yes")
+  | 'q' -> FQuery (cs ("q" ^ tag), cs (if param mod 2 = 1 then "" else "1"))
+  | 'c' -> FCookie (cs ("c" ^ tag), cs (if param mod 2 = 1 then "" else "v"))
+  | 'm' -> FMethod (cs method_params.(param mod Array.length method_params))
+  | _ -> let (a, b, c, d) = url_params.(param mod Array.length url_params) in FUrl (cs a, cs b, cs c, cs d)
+
+let schemes = [| "http"; "https" |]
+let hosts = [| "example.com"; "www.example.com"; "other.org"; "a.b.example.com"; "localhost" |]
+let paths = [| "/a"; "/b" |]
+
+(* message tokens -> the abstraction the condition spec looks at (built the
+   way the harness builds the real message) *)
+let build_msg (ts : string list) : msg =
+  let sc = ref 0 and ho = ref 0 and pa = ref 0 and meth = ref "GET" in
+  let vals = ref [] in
+  List.iter (fun t ->
+    let rest = String.sub t 1 (String.length t - 1) in
+    match t.[0] with
+    | 'u' -> sc := (Char.code t.[1] - 48) mod 2; ho := (Char.code t.[2] - 48) mod 5; pa := (Char.code t.[3] - 48) mod 2
+    | 'm' -> meth := rest
+    | 'h' -> vals := (rest, "y") :: !vals
+    | 'g' -> vals := (rest, "n") :: !vals
+    | 'v' -> (match String.split_on_char ':' rest with [a; b] -> vals := (a, b) :: !vals | _ -> failwith "bad v token")
+    | _ -> failwith "bad msg token") ts;
+  let occ = List.concat_map (fun (tag, pat) -> List.init (String.length pat) (fun i -> (tag, pat.[i] = 'y'))) (List.rev !vals) in
+  let q = List.map (fun (tag, y) -> ("q" ^ tag, if y then "1" else "0")) occ in
+  { m_method = cs !meth; m_scheme = cs schemes.(!sc); m_host = cs hosts.(!ho); m_path = cs paths.(!pa);
+    m_rawquery = cs (String.concat "&" (List.map (fun (a, b) -> a ^ "=" ^ b) q));
+    m_headers = List.map (fun (tag, y) -> (cs ("X-Cond-" ^ tag), cs (if y then "yes" else "no"))) occ;
+    m_query = List.map (fun (a, b) -> (cs a, cs b)) q;
+    m_cookies = List.map (fun (tag, y) -> (cs ("c" ^ tag), cs (if y then "v" else "w"))) occ }
+
+exception Cond_mismatch of string
+
 let parse_scope (s : string) : stok list option =
   match s with
   | "-" | "n" -> None
@@ -79,6 +124,8 @@ let rec parse_node (ts : string list) : tree * string list * int =
           | [tag; param; sc] when is_digits tag && is_digits param ->
               let sc = parse_scope sc in
               let key = key_id (String.make 1 t.[1] ^ tag ^ "." ^ param) in
+              if not (List.mem_assoc key !condtab) then
+                condtab := (key, fcond_of t.[1] tag (int_of_string param)) :: !condtab;
               let (m, r1, c1) = parse_node r in
               let (e, r2, c2) =
                 match r1 with
@@ -111,8 +158,11 @@ let check_msg (ts : string list) : unit =
     let ok =
       match t.[0] with
       | 'u' -> String.length t = 4 && is_digits (tail t 1)
-      | 'm' -> String.length t > 1 && (let ok = ref true in String.iter (fun c -> if c < 'A' || c > 'Z' then ok := false) (tail t 1); !ok)
+      | 'm' -> String.length t > 1 && (let ok = ref true in String.iter (fun c -> if not ((c >= 'A' && c <= 'Z') || (c >= 'a' && c <= 'z')) then ok := false) (tail t 1); !ok)
       | 'h' | 'g' -> is_digits (tail t 1)
+      | 'v' -> (match String.split_on_char ':' (tail t 1) with
+                | [a; b] -> is_digits a && b <> "" && (let ok = ref true in String.iter (fun c -> if c <> 'y' && c <> 'n' then ok := false) b; !ok)
+                | _ -> false)
       | _ -> false in
     if not ok then raise (Bad_case t)) ts
 
@@ -129,18 +179,35 @@ let split_cmds (ts : string list) : (string * string list) list =
 let parse_ids (s : string) : n list =
   List.map (fun x -> if is_digits x then n_of_dec x else raise (Unrepresentable x)) (split_on ',' s)
 
-(* consume the OUT tokens of one MSG: B* T E *)
-let take_msg_out (outs : string list) : (n -> bool) * n list * n list * string list =
+(* consume the OUT tokens of one MSG: B* T E.  The B bits (verdicts of the
+   real matchers) are compared with the condition spec; the tree meaning is
+   then evaluated under the SPEC's valuation. *)
+let read_bits (outs : string list) : (string * n * bool) list * string list =
   let rec bits acc = function
     | b :: r when String.length b > 0 && b.[0] = 'B' ->
         (match String.split_on_char '=' (tail b 1) with
-         | [k; v] -> bits (if v = "1" then key_id k :: acc else acc) r
+         | [k; v] -> bits ((k, key_id k, v = "1") :: acc) r
          | _ -> raise (Unrepresentable b))
-    | r -> (acc, r) in
-  let (trues, r) = bits [] outs in
+    | r -> (List.rev acc, r) in
+  bits [] outs
+
+let check_bits (mts : string list) (bits : (string * n * bool) list) : (n -> bool) =
+  let m = build_msg mts in
+  let tbl = !condtab in
+  let kb = List.map (fun (_, k, b) -> (k, b)) bits in
+  if not (c12_bits_ok tbl m kb) then begin
+    let bad = List.filter (fun (_, k, b) -> b <> cond_of tbl m k) bits in
+    raise (Cond_mismatch (String.concat "," (List.map (fun (s, _, b) ->
+      Printf.sprintf "%s:real-matcher=%b,spec=%b" s b (not b)) bad)))
+  end;
+  cond_of tbl m
+
+let take_msg_out (mts : string list) (outs : string list) : (n -> bool) * n list * n list * string list =
+  let (bits, r) = read_bits outs in
+  let cond = check_bits mts bits in
   match r with
   | t :: e :: r' when String.length t > 0 && t.[0] = 'T' && String.length e > 0 && e.[0] = 'E' ->
-      ((fun c -> List.mem c trues), parse_ids (tail t 1), parse_ids (tail e 1), r')
+      (cond, parse_ids (tail t 1), parse_ids (tail e 1), r')
   | x :: _ -> raise (Unrepresentable x)
   | [] -> raise (Unrepresentable "missing-output")
 
@@ -153,7 +220,7 @@ let pr_obs = function
   | OCfg (Some i) -> "G" ^ string_of_int (int_of_nat i)
 
 let judge _name ins outs =
-  Hashtbl.reset keytab;
+  Hashtbl.reset keytab; condtab := [];
   if outs = ["BADCASE"] then VOk false
   else if List.mem "PANIC" outs then VPropfail ("no_panic", "real code panicked: " ^ String.concat "_" outs)
   else
@@ -176,10 +243,10 @@ let judge _name ins outs =
                   let rec go msgs outs nt =
                     match msgs with
                     | [] -> if outs <> [] then VDisagree "extra-output" else VOk (nt && cnt >= 3)
-                    | (c, _) :: mr ->
+                    | (c, mts) :: mr ->
                         (try
                            let k = if c = "MSGq" then KReq else KRes in
-                           let (cond, tr, er, outs') = take_msg_out outs in
+                           let (cond, tr, er, outs') = take_msg_out mts outs in
                            let o = Ran (tr, er) in
                            if not (c12_ok k cond t o) then
                              VPropfail ("tree_meaning",
@@ -188,7 +255,8 @@ let judge _name ins outs =
                            else if not (impl_agrees k cond t o) then
                              VDisagree ("model=" ^ pr_outcome (impl_outcome k cond t) ^ " got=" ^ pr_outcome o)
                            else go mr outs' (nt || tr <> [])
-                         with Unrepresentable x -> VPropfail ("observation_shape", "got=" ^ x)) in
+                         with Unrepresentable x -> VPropfail ("observation_shape", "got=" ^ x)
+                            | Cond_mismatch d -> VPropfail ("filter_condition", c ^ " " ^ d)) in
                   go msgs orest false
                 end
             | _ -> VDisagree "output-shape")
@@ -220,7 +288,7 @@ let judge _name ins outs =
                incr nmsgs;
                check_msg ts;
                let k = if c = "MSGq" then KReq else KRes in
-               let (cond, tr, er, o') = take_msg_out outs in
+               let (cond, tr, er, o') = take_msg_out ts outs in
                go cr o' (Probe (k, cond) :: acc_c) (OOut (tr, er) :: acc_o) in
          let (cs, obs) = go cmds outs [] [] in
          if c12_script_ok cs obs then begin
@@ -239,7 +307,8 @@ let judge _name ins outs =
            VPropfail (clause, Printf.sprintf "first-diff-at-command=%d want=%s got=%s" k
                         (String.concat "_" (List.map pr_obs want)) (String.concat "_" (List.map pr_obs obs)))
          end
-       with Unrepresentable x -> VPropfail ("observation_shape", "got=" ^ x))
+       with Unrepresentable x -> VPropfail ("observation_shape", "got=" ^ x)
+          | Cond_mismatch d -> VPropfail ("filter_condition", d))
   | "CONC" :: rest ->
       let cmds = split_cmds rest in
       (match List.rev cmds with
@@ -256,14 +325,8 @@ let judge _name ins outs =
                 | x :: _ -> raise (Unrepresentable x)
                 | [] -> raise (Unrepresentable "missing-output") in
               let (sts, outs1) = statuses [] (List.length ts) outs in
-              let rec bits acc = function
-                | b :: r when String.length b > 0 && b.[0] = 'B' ->
-                    (match String.split_on_char '=' (tail b 1) with
-                     | [key; v] -> bits (if v = "1" then key_id key :: acc else acc) r
-                     | _ -> raise (Unrepresentable b))
-                | r -> (acc, r) in
-              let (trues, outs2) = bits [] outs1 in
-              let cond = fun c -> List.mem c trues in
+              let (bits, outs2) = read_bits outs1 in
+              let cond = check_bits mts bits in
               let rec obs acc = function
                 | [] -> List.rev acc
                 | t :: e :: r when String.length t > 0 && t.[0] = 'T' && String.length e > 0 && e.[0] = 'E' ->
@@ -280,8 +343,75 @@ let judge _name ins outs =
                              (String.concat "_" (List.map (fun (t, e) -> pr_outcome (Ran (t, e))) (accepted_meanings k cond ts)))
                              (String.concat "_" (List.map (fun (t, e) -> pr_outcome (Ran (t, e))) os)))
               end
-            with Unrepresentable x -> VPropfail ("observation_shape", "got=" ^ x))
+            with Unrepresentable x -> VPropfail ("observation_shape", "got=" ^ x)
+               | Cond_mismatch d -> VPropfail ("filter_condition", d))
        | _ -> raise (Bad_case "CONC without MSG"))
+  | ["STRESS"; ks; _; _] ->
+      let k = int_of_string ks in
+      let config i =
+        let id = string_of_int (i + 1) in
+        if i mod 7 = 3 then "X0"
+        else if i mod 5 = 2 then "L" ^ id ^ ".b.0.q"
+        else if i mod 11 = 6 then "L" ^ id ^ ".b.0.s"
+        else "L" ^ id ^ ".b.0.-" in
+      let ts = List.init k (fun i -> let (t, _, _) = parse_node [config i] in t) in
+      (try
+         (match outs with
+          | st :: rest when String.length st = k + 2 && String.sub st 0 2 = "ST" ->
+              let sts = List.init k (fun i ->
+                match st.[i + 2] with '1' -> true | '0' -> false | _ -> raise (Unrepresentable st)) in
+              let ids s = if String.contains s '!' then raise (Unrepresentable s) else parse_ids s in
+              let rec threads cur acc = function
+                | [] -> List.rev (match cur with None -> acc | Some c -> List.rev c :: acc)
+                | "|" :: r -> threads (Some []) (match cur with None -> acc | Some c -> List.rev c :: acc) r
+                | o :: r ->
+                    let c = match cur with Some c -> c | None -> raise (Unrepresentable o) in
+                    let c' =
+                      match o.[0] with
+                      | 'x' ->
+                          (match String.split_on_char '/' (tail o 1) with
+                           | [a; b] -> PRes (ids b, []) :: PReq (ids a, []) :: c
+                           | _ -> raise (Unrepresentable o))
+                      | 'q' -> PReq (ids (tail o 1), []) :: c
+                      | 'c' ->
+                          if o = "c-" then PCfg None :: c
+                          else if is_digits (tail o 1) then PCfg (Some (nat_of_int (int_of_string (tail o 1)))) :: c
+                          else raise (Unrepresentable o)
+                      | _ -> raise (Unrepresentable o) in
+                    threads (Some c') acc r in
+              let ths = threads None [] rest in
+              let nocond = fun _ -> false in
+              if c12_stress_ok nocond nocond ts sts ths then VOk (List.length ths >= 2)
+              else begin
+                let want_st = List.map (fun t -> not (has_bad t)) ts in
+                if sts <> want_st then VPropfail ("rejected_good_config", "statuses differ")
+                else begin
+                  (* locate the first thread / observation that cannot be explained *)
+                  let pr = function
+                    | PReq (t, _) -> "req:" ^ pr_ids t | PRes (t, _) -> "res:" ^ pr_ids t
+                    | PCfg None -> "get:-" | PCfg (Some i) -> "get:" ^ string_of_int (int_of_nat i) in
+                  let states = cfg_states ts in
+                  let where = ref "" in
+                  List.iteri (fun ti obs ->
+                    if !where = "" && not (explained_by (pmatch nocond nocond) states obs) then begin
+                      let arr = Array.of_list obs in
+                      let n = Array.length arr in
+                      let rec firstbad lo hi = (* smallest prefix length that is not explained *)
+                        if lo >= hi then lo else
+                        let mid = (lo + hi) / 2 in
+                        if explained_by (pmatch nocond nocond) states (Array.to_list (Array.sub arr 0 mid)) then firstbad (mid + 1) hi
+                        else firstbad lo mid in
+                      let b = firstbad 1 n in
+                      let from = max 0 (b - 4) in
+                      where := Printf.sprintf "thread=%d observations[%d..%d]=%s" ti from (b - 1)
+                        (String.concat "," (List.map pr (Array.to_list (Array.sub arr from (b - from)))))
+                    end) ths;
+                  VPropfail ("atomic_replacement",
+                             if !where = "" then "a thread's last observation is not the last accepted configuration" else !where)
+                end
+              end
+          | _ -> VDisagree "output-shape")
+       with Unrepresentable x -> VPropfail ("observation_shape", "got=" ^ String.sub x 0 (min 60 (String.length x))))
   | _ -> VDisagree "unknown-case-kind"
 
 let () = run_driver judge
